@@ -62,7 +62,7 @@ Proof. destruct l; split; auto; discriminate. Qed.
 Inductive accepted (c : gcfg) : gst -> list (hop * gobs) -> Prop :=
 | acc_nil : forall s, accepted c s []
 | acc_step : forall s h o rest s' r,
-    step (env_of c) s (op_of h (o_now o)) = (s', r) ->
+    step (env_of (cfg_at c o)) s (op_of h (o_now o)) = (s', r) ->
     res_code r = o_res o ->                              (* the result is the model's *)
     res_comp r = o_comp o ->                             (* ... and so is the composite returned *)
     composed_of (produced s s') = o_compose o ->         (* ComposeFrom was called with exactly the model's groups, in order *)
@@ -128,7 +128,7 @@ Proof.
     + apply N.eqb_eq, H5.
     + destruct h; try (destruct (N.eqb (o_res o) 0) eqn:E; [discriminate|apply N.eqb_neq, E]).
       destruct (N.eqb (o_res o) 0) eqn:E; [apply N.eqb_eq, E|discriminate].
-    + destruct h as [id fl n| | |]; try exact I. destruct id; [|exact I]. destruct (N.eqb (o_res o) 3 && negb (nonempty (o_compose o))) eqn:E; [|discriminate].
+    + destruct h as [id fl n| | | |]; try exact I. destruct id; [|exact I]. destruct (N.eqb (o_res o) 3 && negb (nonempty (o_compose o))) eqn:E; [|discriminate].
       apply andb_true_iff in E as [E1 E2]. split; [apply N.eqb_eq, E1|apply nonempty_false, negb_true_iff, E2].
     + exact H8.
     + exact H9.
@@ -144,7 +144,7 @@ Proof.
       rewrite O2 by discriminate. reflexivity.
     + apply N.eqb_eq, Lo.
     + destruct h; try (apply N.eqb_neq in Id; rewrite Id; reflexivity). rewrite Id. reflexivity.
-    + destruct h as [id fl n| | |]; try reflexivity. destruct id; [|reflexivity]. destruct Em as [E1 E2]. rewrite E1, E2. reflexivity.
+    + destruct h as [id fl n| | | |]; try reflexivity. destruct id; [|reflexivity]. destruct Em as [E1 E2]. rewrite E1, E2. reflexivity.
     + exact Sg.
     + exact Ix.
     + exact Mu.
@@ -158,7 +158,7 @@ Theorem run_case_sound c : forall steps s st i,
   run_case c false s st i steps = [] -> accepted c s steps /\ oracles_ok c st steps.
 Proof.
   induction steps as [|[h o] rest IH]; intros s st i H; [split; constructor|].
-  cbn [run_case] in H. destruct (step (env_of c) s (op_of h (o_now o))) as [s' r] eqn:Es.
+  cbn [run_case] in H. destruct (step (env_of (cfg_at c o)) s (op_of h (o_now o))) as [s' r] eqn:Es.
   pose proof (oracle_spec c h o st) as Hos. pose proof (oracle_state c h o st) as Hst.
   destruct (oracle c h o st) as [ks st']. cbn [fst snd] in Hos, Hst. subst st'.
   apply app_nil_both in H as [Hm Hrest]. apply map_nil, app_nil_both in Hm as [Hmm Hks].
@@ -204,7 +204,7 @@ Print Assumptions mismatches_nil_iff.
 (* what acceptance gives: the last snapshot observed is the model's state after the same calls *)
 Theorem accepted_final_gated c : forall steps s h o,
   accepted c s (steps ++ [(h, o)]) ->
-  model_gated (fold_left (fun s x => fst (step (env_of c) s (op_of (fst x) (o_now (snd x))))) (steps ++ [(h, o)]) s) = o_gated o.
+  model_gated (fold_left (fun s x => fst (step (env_of (cfg_at c (snd x))) s (op_of (fst x) (o_now (snd x))))) (steps ++ [(h, o)]) s) = o_gated o.
 Proof.
   induction steps as [|[h1 o1] rest IH]; intros s h o Ha; cbn [app] in *;
     inversion Ha as [|s0 h0 o0 rest0 s' r Es H1 H2 H3 H4 H5 Hacc]; subst; cbn [fold_left fst snd]; rewrite Es; cbn [fst].
